@@ -146,6 +146,70 @@ def attention(which):
   return _prove(cases, t0)
 
 
+def decode_cache(which):
+  """MultiHeadDotProductAttention(decode=True) fed one position at a time returns, at
+  every step, what the same module returns for that position on the whole sequence
+  under a causal mask; the cache index advances by one and the cached keys are the
+  whole-sequence keys of the positions seen so far"""
+  t0 = time.time()
+  cases = []
+  H, F, Lx = ((1, 2, 3), (2, 2, 2))[which]
+  D = F // H
+  with SymEnv():
+    x = A.sym('x', (1, Lx, F))
+    p = {}
+    for nm in ('query', 'key', 'value'):
+      p[nm] = {'kernel': A.sym(nm[0] + 'k', (F, H, D)), 'bias': A.sym(nm[0] + 'b',
+                                                                      (H, D))}
+    p['out'] = {'kernel': A.sym('ok', (H, D, F)), 'bias': A.sym('ob', (F,))}
+    kw = dict(num_heads=H, qkv_features=F, out_features=F, deterministic=True)
+    full = nn.MultiHeadDotProductAttention(**kw)
+    causal = LA.make_causal_mask(symnp.JNP.ones((1, Lx)))
+    y_full = A.of(full.apply({'params': p}, R(x), mask=causal))
+    dec = nn.MultiHeadDotProductAttention(decode=True, **kw)
+    cache = {'cached_key': symnp.JNP.zeros((1, Lx, H, D)),
+             'cached_value': symnp.JNP.zeros((1, Lx, H, D)),
+             'cache_index': symnp.JNP.array(0, dtype='int32')}
+    if sym.CONCRETE['on']:
+      import jax.numpy as jnp
+      cache = {'cached_key': jnp.zeros((1, Lx, H, D)),
+               'cached_value': jnp.zeros((1, Lx, H, D)),
+               'cache_index': jnp.array(0, dtype=jnp.int32)}
+    for t in range(Lx):
+      xt = A([x.at((0, t, f)) for f in range(F)], (1, 1, F))
+      yt, upd = dec.apply({'params': p, 'cache': cache}, R(xt), mutable=['cache'])
+      cache = upd['cache']
+      yt = A.of(yt)
+      cases.append(('decode step %d == whole sequence' % t, yt, A(
+          [y_full.at((0, t, f)) for f in range(F)], (1, 1, F))))
+      ci = A.of(cache['cache_index'])
+      cases.append(('cache index after step %d' % t, ci, A([S(t + 1)], ())))
+  # float saturation: exp(finfo.min) underflows to exactly 0, which is what makes
+  # masked positions inert in floats (in the reals it would only be tiny)
+  fill = symnp.JNP.finfo(None).min
+  extra = []
+  if not sym.CONCRETE['on']:
+    extra = [sym.uf('exp', fill).t == 0]
+    # ... and exp of anything else is positive (instantiated at every application)
+    seen, apps = set(), []
+
+    def walk(t):
+      if t.get_id() in seen:
+        return
+      seen.add(t.get_id())
+      if z3.is_app(t):
+        if t.decl().name() == 'exp' and not z3.eq(t.arg(0), _num(fill.t)):
+          apps.append(t)
+        for c in t.children():
+          walk(c)
+    for _, got, want in cases:
+      for arr in (A.of(got), A.of(want)):
+        for e in arr.data:
+          walk(z3.simplify(_num(e.t)) if not z3.is_bool(e.t) else e.t)
+    extra += [a_ > 0 for a_ in apps]
+  return _prove(cases, t0, extra)
+
+
 def _param_tree(cell, carry_shape, x_shape):
   """real init (concrete, outside the shim) gives the parameter structure; every
   leaf is then replaced by a symbolic array of the same shape"""
@@ -485,6 +549,13 @@ def obligations(tier):
             kind='smt', replay=replay_family, split=('which',), timeout=900, funcs=F1,
             bounds='(q len, kv len, heads, depth) in (2,3,1,2), (1,2,1,4), (2,2,2,1); '
                    'bias / mask on/off')]
+  obs.append(Ob('decode_cache_equals_whole_sequence', _fam('decode_cache'),
+                dict(which=I(0, 1)), kind='smt', replay=replay_family,
+                split=('which',), timeout=900, funcs=qualnames(
+                    nn.MultiHeadDotProductAttention.__call__,
+                    LA.dot_product_attention, LA.make_causal_mask, LA.combine_masks),
+                bounds='(heads, features, length) in (1,2,3), (2,2,2); batch 1; '
+                       'symbolic inputs and parameters'))
   for w, nm in enumerate(['LSTMCell', 'GRUCell', 'SimpleCell', 'MGUCell',
                           'OptimizedLSTMCell']):
     obs.append(Ob('cell_step_' + nm, _fam('cells'), dict(which=I(w, w)), kind='smt', replay=replay_family,
